@@ -28,6 +28,7 @@ func C13(r *core.Run) {
 	provTailAppend(r)
 	provNames(r)
 	provRefs(r)
+	provEnumPrefix(r)
 }
 
 // provNumbers (R-PROV/V1).
@@ -50,11 +51,13 @@ func provNumbers(r *core.Run) {
 		return true
 	})
 	for _, as := range numberStores {
-		target := core.ExprStr(as.Lhs[0].(*ast.SelectorExpr).X)
+		target := core.NormExpr(info, as.Lhs[0].(*ast.SelectorExpr).X)
 		val := ptrArg(as.Rhs[0])
-		o := r.Add("R-PROV/V1", fmt.Sprintf("j5convert.buildProperty | %s.Number = %s", target, core.ExprStr(as.Rhs[0])), as.Pos(), "field number store "+core.ExprStr(as.Rhs[0]))
+		o := r.Add("R-PROV/V1", fmt.Sprintf("j5convert.buildProperty | %s.Number = %s", target, core.NormExpr(info, as.Rhs[0])), as.Pos(), "field number store "+core.ExprStr(as.Rhs[0]))
 		if k, ok := core.ConstInt(info, val); ok {
-			if strings.Contains(target, "item") && k == 2 || strings.Contains(target, "key") && k == 1 {
+			// the key (1) and value (2) fields of a synthetic map-entry message: the function that
+			// stores the constant also builds a message with MessageOptions{MapEntry: …}
+			if (k == 1 || k == 2) && buildsMapEntry(r, info, as) {
 				o.Auto("map entry constant %d", k)
 			} else {
 				o.Fail("constant field number %d outside the map-entry convention", k)
@@ -76,8 +79,8 @@ func provNumbers(r *core.Run) {
 		for _, e := range cl.Elts {
 			if kv, ok := e.(*ast.KeyValueExpr); ok && core.ExprStr(kv.Key) == "Number" {
 				o := r.Add("R-PROV/V1", "j5convert.buildProperty | literal Number: "+core.ExprStr(kv.Value), kv.Pos(), "field number in literal")
-				if k, ok := core.ConstInt(info, ptrArg(kv.Value)); ok && k == 1 {
-					o.Auto("map key constant 1")
+				if k, ok := core.ConstInt(info, ptrArg(kv.Value)); ok && (k == 1 || k == 2) && buildsMapEntry(r, info, kv) {
+					o.Auto("map entry constant %d", k)
 				} else {
 					o.Fail("unexpected literal field number %s", core.ExprStr(kv.Value))
 				}
@@ -197,6 +200,36 @@ func counterThroughParam(pk *packages.Package, f2 *ast.FuncDecl, val ast.Expr) (
 		return fmt.Sprintf("parameter of %s; all %d call site(s) pass the positional counter of mapProperties", core.FuncName(f2), sites), true
 	}
 	return "", false
+}
+
+// buildsMapEntry: the function containing n has a MessageOptions literal that
+// sets MapEntry.
+func buildsMapEntry(r *core.Run, info *types.Info, n ast.Node) bool {
+	fd := r.P.EnclosingDecl(n.Pos())
+	if fd == nil || fd.Body == nil {
+		return false
+	}
+	found := false
+	ast.Inspect(fd.Body, func(x ast.Node) bool {
+		switch y := x.(type) {
+		case *ast.CompositeLit:
+			if strings.HasSuffix(core.TypeStr(info.TypeOf(y)), "descriptorpb.MessageOptions") {
+				for _, e := range y.Elts {
+					if kv, ok := e.(*ast.KeyValueExpr); ok && core.ExprStr(kv.Key) == "MapEntry" {
+						found = true
+					}
+				}
+			}
+		case *ast.AssignStmt:
+			for _, l := range y.Lhs {
+				if s, ok := core.Unparen(l).(*ast.SelectorExpr); ok && s.Sel.Name == "MapEntry" && strings.HasSuffix(core.TypeStr(info.TypeOf(s.X)), "descriptorpb.MessageOptions") {
+					found = true
+				}
+			}
+		}
+		return true
+	})
+	return found
 }
 
 // isMapProperties: fd is the numbering function (found as an anchor, so a
@@ -803,4 +836,119 @@ func provRefs(r *core.Run) {
 		})
 	})
 	r.Floor("R-PROV/V5", 1, "ResolveType call sites in j5convert")
+}
+
+// provEnumPrefix (R-PROV/V6): the proto name of an enum value is the enum's
+// prefix plus the option's own name. The prefix has to be a function of the
+// enum's declared prefix and name only; if it is computed from the list of
+// options (a shared leading word, the longest name …), appending an option can
+// change it and with it the name of every existing value.
+func provEnumPrefix(r *core.Run) {
+	r.Rule("R-PROV/V6", "the value stored in enumBuilder.prefix is computed without reading the enum's option list (followed through local definitions and same-package helpers): existing value names cannot change when an option is appended")
+	pk := r.P.Pkg(convRel)
+	if pk == nil {
+		return
+	}
+	info := pk.TypesInfo
+	readsOptions := func(n ast.Node) ast.Node {
+		var hit ast.Node
+		ast.Inspect(n, func(x ast.Node) bool {
+			if hit != nil {
+				return false
+			}
+			switch y := x.(type) {
+			case *ast.SelectorExpr:
+				if (y.Sel.Name == "Options" || y.Sel.Name == "GetOptions") && strings.HasSuffix(core.TypeStr(info.TypeOf(y.X)), "schema_j5pb.Enum") {
+					hit = y
+				}
+			}
+			return true
+		})
+		return hit
+	}
+	var depends func(fd *ast.FuncDecl, e ast.Expr, depth int) ast.Node
+	depends = func(fd *ast.FuncDecl, e ast.Expr, depth int) ast.Node {
+		if depth > 4 || e == nil {
+			return nil
+		}
+		if h := readsOptions(e); h != nil {
+			return h
+		}
+		var hit ast.Node
+		ast.Inspect(e, func(x ast.Node) bool {
+			if hit != nil {
+				return false
+			}
+			switch y := x.(type) {
+			case *ast.Ident:
+				v, ok := info.Uses[y].(*types.Var)
+				if !ok || v.IsField() || v.Parent() == pk.Types.Scope() || fd == nil {
+					return true
+				}
+				// every assignment to the local
+				ast.Inspect(fd.Body, func(z ast.Node) bool {
+					if as, ok := z.(*ast.AssignStmt); ok && len(as.Lhs) == len(as.Rhs) {
+						for i, l := range as.Lhs {
+							if li, ok := l.(*ast.Ident); ok && (info.Defs[li] == v || info.Uses[li] == v) && as.Rhs[i] != e {
+								if h := depends(fd, as.Rhs[i], depth+1); h != nil && hit == nil {
+									hit = h
+								}
+							}
+						}
+					}
+					return true
+				})
+			case *ast.CallExpr:
+				fn := core.CalleeFunc(info, y)
+				if fn == nil || fn.Pkg() != pk.Types {
+					return true
+				}
+				if cd := core.DeclOf(pk, fn.Origin()); cd != nil && cd.Body != nil {
+					for _, body := range core.TreeOf(pk, cd.Body, 2) {
+						if h := readsOptions(body); h != nil && hit == nil {
+							hit = h
+						}
+					}
+				}
+			}
+			return true
+		})
+		return hit
+	}
+	n := 0
+	core.AllFuncDecls(pk, func(fd *ast.FuncDecl) {
+		ast.Inspect(fd.Body, func(nd ast.Node) bool {
+			var val ast.Expr
+			var pos token.Pos
+			switch x := nd.(type) {
+			case *ast.CompositeLit:
+				if !strings.HasSuffix(core.TypeStr(info.TypeOf(x)), "j5convert.enumBuilder") {
+					return true
+				}
+				for _, el := range x.Elts {
+					if kv, ok := el.(*ast.KeyValueExpr); ok && core.ExprStr(kv.Key) == "prefix" {
+						val, pos = kv.Value, kv.Pos()
+					}
+				}
+			case *ast.AssignStmt:
+				for i, l := range x.Lhs {
+					if s, ok := core.Unparen(l).(*ast.SelectorExpr); ok && s.Sel.Name == "prefix" && strings.HasSuffix(core.TypeStr(info.TypeOf(s.X)), "j5convert.enumBuilder") && len(x.Rhs) == len(x.Lhs) {
+						val, pos = x.Rhs[i], x.Pos()
+					}
+				}
+			}
+			if val == nil {
+				return true
+			}
+			n++
+			o := r.Add("R-PROV/V6", "j5convert."+core.FuncName(fd)+" | enumBuilder.prefix", pos, "prefix of the enum's value names")
+			if h := depends(fd, val, 0); h != nil {
+				o.Fail("the prefix is computed from the enum's option list (read at %s): appending an option can change the prefix and rename every existing value", r.P.Rel(h.Pos()))
+			} else {
+				o.Auto("computed from the declared prefix and the enum's name only")
+			}
+			return true
+		})
+	})
+	r.Floor("R-PROV/V6", 1, "the enumBuilder literal in visitEnumNode")
 }
